@@ -174,6 +174,62 @@ def cases(tier, rng):
                 out.append((fn, [[10.0 + k for k in ka], [20.0 + k for k in kb], kmod], None))
     out.append(("set", [[{"k": 1.0, "tag": "x"}, {"k": 0.0, "tag": "y"}, {"k": 1.0, "tag": "z"}], kfield], None))
     out.append(("uniq", [[11.0, 21.0, 12.0, 32.0, 2.0], kmod], None))
+    # arrays longer than the small-input thresholds of sorting algorithms (insertion sort below ~20 elements), few distinct
+    # keys: stability and "std.set keeps the first element of each key class" are visible through the tags
+    for _ in range(40 if tier == "quick" else 400):
+        n = rng.randrange(21, 120)
+        nk = rng.choice([2, 3, 5, 9])
+        arr = [{"k": float(rng.randrange(nk)) if rng.random() < 0.9 else float(rng.randrange(nk)) + 0.5, "tag": float(i)} for i in range(n)]
+        out.append(("sort", [arr, kfield], law_sort))
+        out.append(("set", [arr, kfield], None))
+        out.append(("uniq", [sorted(arr, key=lambda x: x["k"]), kfield], None))
+        sarr = [{"k": rng.choice("abc") * rng.randrange(1, 3), "tag": float(i)} for i in range(n)]
+        out.append(("sort", [sarr, kfield], law_sort))
+        out.append(("set", [sarr, kfield], None))
+        nums = [float(rng.randrange(10 * nk)) for _ in range(n)]
+        out.append(("sort", [nums, kmod], law_sort))
+        out.append(("set", [nums, kmod], None))
+        out.append(("sort", [nums], law_sort))
+        out.append(("minArray", [arr, kfield], None))
+        out.append(("maxArray", [arr, kfield], None))
+    # join: array separators with empty arrays / nulls in every position (the separator goes between every two non-null items)
+    parts = [[], [1.0], None, [2.0, 3.0]]
+    for n in (1, 2, 3, 4):
+        for combo in itertools.product(parts, repeat=n):
+            for sep in ([0.0], [7.0, 8.0], []):
+                out.append(("join", [sep, list(combo)], None))
+    sparts = ["", "x", None, "yz"]
+    for n in (1, 2, 3, 4):
+        for combo in itertools.product(sparts, repeat=n):
+            for sep in (",", "", "ab"):
+                out.append(("join", [sep, list(combo)], None))
+            out.append(("lines", [list(combo)], None))
+    # long strings written as concatenations (kept as ropes by the evaluator), equal or differing in one character,
+    # each element held as a differently shaped rope: ordering, deduplication and membership must decide on the text
+    for _ in range(40 if tier == "quick" else 400):
+        L = rng.randrange(100, 160)
+        base = "".join(rng.choice("xyz") for _ in range(L))
+        js = sorted(rng.sample(range(L), 3))
+        texts = [base] + [base[:j] + c + base[j + 1:] for j in js for c in "aw~"] + [base[:L - 1], base + "x"]
+        pick = [rng.choice(texts) for _ in range(rng.randrange(2, 6))]
+        ra = [S.JCat.shaped(t, rng) if rng.random() < 0.8 else t for t in pick]
+        out.append(("sort", [ra], law_sort))
+        out.append(("uniq", [sorted(ra)], None))
+        out.append(("set", [ra], None))
+        out.append(("minArray", [ra], None))
+        out.append(("maxArray", [ra], None))
+        x = S.JCat.shaped(rng.choice(texts), rng)
+        out.append(("member", [ra, x], None))
+        out.append(("count", [ra, x], None))
+        out.append(("find", [x, ra], None))
+        out.append(("remove", [ra, x], None))
+        out.append(("sort", [[{"k": t, "tag": float(i)} for i, t in enumerate(ra)], kfield], law_sort))
+        sa = [S.JCat.shaped(t, rng) for t in sorted(set(pick))]
+        sb = [S.JCat.shaped(t, rng) for t in sorted(set(rng.choice(texts) for _ in range(3)))]
+        out.append(("setMember", [x, sa], None))
+        for fn in ("setUnion", "setInter", "setDiff"):
+            out.append((fn, [sa, sb], None))
+        out.append(("join", [S.JCat.shaped(base[:100], rng), ra], None))
     # string sets and mixed errors
     for a, b in itertools.product([[], ["a"], ["a", "b"], ["b", "c"]], repeat=2):
         for fn in ("setUnion", "setInter", "setDiff"):
